@@ -58,6 +58,14 @@ def genStr (g : GenOut) : String := s!"mt[{nvStr g.matchTypes}] ob[{nvStr g.outb
 
 def optStr (o : Option Nat) : String := match o with | some v => toString v | none => "none"
 
+def connAnswer (outbound l4 ip dom : String) : String :=
+  let l4' := match l4 with | "tcp" => L4Str.tcp | "udp" => .udp | _ => .other
+  let ip' := match ip with | "4" => IpStr.v4 | "6" => .v6 | _ => .other
+  let dom' := match dom with | "dns" => UdpDomain.dns | "data" => .data | _ => .unset
+  match outbound.toNat? with
+  | some o => optStr (goConnKey? o ⟨l4', ip', dom'⟩)
+  | none => "bad-op"
+
 def allConstPairs : List (Name × Name) := specConstPairs ++ fixedConstPairs
 
 def handle (line : String) : String :=
@@ -201,13 +209,10 @@ def handle (line : String) : String :=
     match parseEndian? e, parseAddr? src, sport.toNat?, parseAddr? dst, dport.toNat?, proto.toNat? with
     | some e, some s, some sp, some d, some dp, some p => bytesToHex (goTuplesKey e ⟨s, sp⟩ ⟨d, dp⟩ p)
     | _, _, _, _, _, _ => "bad-op"
-  | ["conn", outbound, l4, ip, dom] =>
-    let l4' := match l4 with | "tcp" => L4Str.tcp | "udp" => .udp | _ => .other
-    let ip' := match ip with | "4" => IpStr.v4 | "6" => .v6 | _ => .other
-    let dom' := match dom with | "dns" => UdpDomain.dns | "data" => .data | _ => .unset
-    match outbound.toNat? with
-    | some o => optStr (goConnKey? o ⟨l4', ip', dom'⟩)
-    | none => "bad-op"
+  | ["connwrite-residue"] => "0"   -- every slot written by the callback is cleared through the same slot
+  | ["domsync", _] => "found"      -- the entry written by syncOwner is found under the kernel's 16-byte key
+  | ["conn", outbound, l4, ip, dom] => connAnswer outbound l4 ip dom
+  | ["connwrite", outbound, l4, ip, dom] => connAnswer outbound l4 ip dom   -- slot written by the real callback
   | ["listen", which] =>
     match which with
     | "tcp4" => optStr (goListenKey? .tcp4)
